@@ -77,6 +77,15 @@ func checkC03(r *Run) {
 		ng += errorGatesSuccess(r, f, "error-gates-success")
 	}
 	r.Floor("error-gates-success", ng, 4, "error-returning steps in readmsg/ReadFcall")
+	// a frame whose body is too short is an error, not a message with zero-valued fields: no failed decode step
+	// continues to a success return (rule shared with C04)
+	if _, scope := decodeScope(r.P); len(scope) > 0 {
+		nd := 0
+		for _, fn := range scope {
+			nd += errorGatesSuccess(r, fn, "error-gates-success")
+		}
+		r.Floor("error-gates-success", nd, 15, "error-returning steps on the decode path")
+	}
 	c02OverflowExposed(r)
 	// frame isolation continues through the decoder: every decoded field is read into storage made for it (the
 	// codec-grammar rules: decode(*[]byte) is make + read), never a view of the channel's reused read buffer
